@@ -9,6 +9,7 @@ import (
 	"path/filepath"
 	"sort"
 	"strings"
+	"sync"
 	"testing"
 
 	"github.com/MixinNetwork/mixin/common"
@@ -1710,6 +1711,11 @@ func TestVerif_C05(t *testing.T) {
 	}
 
 	n := r.N(20000, 600000)
+	// a sample of the decodable candidates is validated again at the end from 16 goroutines at once (the node
+	// validates in several background loops and RPC handlers concurrently)
+	concMax := r.N(3000, 60000)
+	var concEnc [][]byte
+	var concTs []uint64
 	wd.running = true
 	classes := map[string]int{}
 	accepted := 0
@@ -1756,6 +1762,10 @@ func TestVerif_C05(t *testing.T) {
 		ts := wd.timestamp()
 		class := "type-" + vC05TypeName(first.TransactionType())
 		r.Count("decoded_"+class, 1)
+		if len(concEnc) < concMax && cases%3 == 0 {
+			concEnc = append(concEnc, enc)
+			concTs = append(concTs, ts)
+		}
 		for _, m := range c.muts {
 			r.Count("mutation_"+m, 1)
 		}
@@ -1804,6 +1814,71 @@ func TestVerif_C05(t *testing.T) {
 					}
 					r.Sample(map[string]any{"template": c.kind, "mutations": c.muts, "type": class, "bytes": len(enc), "snapshot_time": ts, "result": cl, "tx": hexTx})
 				}
+			}
+		}
+	}
+	if wd.inflight != "" {
+		_ = os.WriteFile(wd.inflight, []byte(fmt.Sprintf("C05 concurrent phase: seed=%d, %d decodable candidates of the sequential phase validated again from 16 goroutines\n", r.Seed, len(concEnc))), 0o644)
+	}
+	// plus transactions nobody has validated yet, whose output keys and masks are new to the process (fresh seeds):
+	// mints and deposits built now and validated only concurrently
+	freshN := r.N(1500, 20000)
+	for i := 0; i < freshN; i++ {
+		var tx *common.VersionedTransaction
+		if p, _, _ := verifkit.Guard(func() {
+			if i%2 == 0 {
+				tx, _ = wd.mintTx(uint64(900000+i), big.NewInt(int64(1+wd.rng.Intn(1e9))))
+			} else {
+				a := verifAssets()[1+wd.rng.Intn(3)]
+				tx, _ = wd.w.deposit(a, big.NewInt(int64(1+wd.rng.Intn(1e8))))
+			}
+		}); p || tx == nil {
+			continue
+		}
+		concEnc = append(concEnc, tx.Marshal())
+		concTs = append(concTs, wd.timestamp())
+	}
+	r.Count("fresh_transactions_for_the_concurrent_phase", freshN)
+	{
+		type cpanic struct {
+			idx   int
+			fork  bool
+			val   any
+			stack string
+		}
+		workers := 16
+		found := make([][]cpanic, workers)
+		var wg sync.WaitGroup
+		for g := 0; g < workers; g++ {
+			wg.Add(1)
+			go func(g int) {
+				defer wg.Done()
+				for i := g; i < len(concEnc); i += workers {
+					for _, fork := range []bool{false, true} {
+						parsed, err := common.UnmarshalVersionedTransaction(concEnc[i])
+						if err != nil || parsed == nil {
+							continue
+						}
+						if p, pv, st := verifkit.Guard(func() { _ = parsed.Validate(wd.sim.Store, concTs[i], fork) }); p {
+							found[g] = append(found[g], cpanic{i, fork, pv, st})
+						}
+					}
+				}
+			}(g)
+		}
+		wg.Wait()
+		r.Evals(2 * len(concEnc))
+		r.Count("concurrent_validations", 2*len(concEnc))
+		for _, list := range found {
+			for _, cp := range list {
+				site := verifkit.PanicSite(cp.stack)
+				hexTx := fmt.Sprintf("%x", concEnc[cp.idx])
+				if len(hexTx) > 20000 {
+					hexTx = hexTx[:20000] + "...(truncated)"
+				}
+				r.Violation("C05|"+site+"|concurrent|via-"+vC05Stage(cp.stack),
+					fmt.Sprintf("Validate panicked in %s on a decodable transaction while 16 goroutines were validating: %v", site, vC05Short(cp.val)),
+					map[string]any{"tx": hexTx, "snapshot_time": concTs[cp.idx], "fork": cp.fork, "panic": vC05Short(cp.val), "stack": vC05Trim(cp.stack)})
 			}
 		}
 	}
